@@ -1166,7 +1166,7 @@ func NewVHostPathRewriter(slashesCount int) PathRewriteFunc {
 	return func(ctx *RequestContext) []byte {
 		path := stripLeadingSlashes(ctx.Path(), slashesCount)
 		host := ctx.Host()
-		if n := bytes.IndexByte(host, '/'); n >= 0 {
+		if n := bytes.IndexByte(host, '/'); n >= 0 || string(host) == "." || string(host) == ".." {
 			host = nil
 		}
 		if len(host) == 0 {
@@ -1174,8 +1174,10 @@ func NewVHostPathRewriter(slashesCount int) PathRewriteFunc {
 		}
 		b := bytebufferpool.Get()
 		b.B = append(b.B, '/')
-		b.B = append(b.B, host...)
-		b.B = append(b.B, path...)
+		// SetPathBytes percent-decodes its argument; host is raw and path is already
+		// decoded, so both are quoted here in order not to be decoded a second time.
+		b.B = bytesconv.AppendQuotedPath(b.B, host)
+		b.B = bytesconv.AppendQuotedPath(b.B, path)
 		ctx.URI().SetPathBytes(b.B)
 		bytebufferpool.Put(b)
 
